@@ -62,7 +62,17 @@ def commonpath : Handler := fun j => do
   | .ok r => pure (Json.mkObj [("ok", Json.str (String.ofList r))])
   | .error .valueError => pure (Json.mkObj [("exc", "ValueError")])
 
+/-- `c10.both`: model output and, when `out` is given (the implementation returned normally), the
+hypotheses and clauses evaluated on it — one round trip per case. -/
+def both : Handler := fun j => do
+  let m ← model j
+  match j.getObjVal? "out" with
+  | .ok _ => do
+    let s ← spec j
+    pure (Json.mkObj [("model", m), ("spec", s)])
+  | .error _ => pure (Json.mkObj [("model", m)])
+
 def handlers : List (String × Handler) :=
-  [("c10.model", model), ("c10.spec", spec), ("c10.commonpath", commonpath)]
+  [("c10.model", model), ("c10.spec", spec), ("c10.both", both), ("c10.commonpath", commonpath)]
 
 end Driver.C10
